@@ -4,6 +4,8 @@ CONSTANTS
   Client <- Client3
   MaxNonce = 2
   MaxFail = 3
+  MaxCtl = 0
+  Faults = {}
   Ops = {"Msg", "Ban", "Blacklist", "Expire"}
   Types = {"control", "tunnel"}
   PreAccept = TRUE
